@@ -98,10 +98,14 @@ def oracle(text: str, f: Dict[str, Any], res: Optional[Tuple[str, int, int, str]
                 f"Markdown file ({file_lines[f['file_line'] - 1]!r})")
     if not (1 <= line <= len(file_lines)):
         return f"reported line {line} outside the file"
-    # the snippet is the line's recipe text EXACTLY (every character, tabs and trailing blanks included); only the
-    # indentation that marko leaves in front of the line (tab-indented blocks) may differ, by blanks
-    if snippet != f["rline"] and not (snippet.lstrip(" ") == f["rline"].lstrip(" ") and f.get("indent_varies")):
-        return f"snippet {snippet!r} is not the recipe text of line {line} ({f['rline']!r})"
+    # the snippet is the line's recipe text EXACTLY (every character, tabs and trailing blanks included).
+    # Its text is what Markdown makes of that line (container prefix and block indentation removed), read off
+    # marko's own parse and tied to the generator's line (equal up to leading blanks, checked in locate()).
+    expected = f.get("marko_line")
+    if expected is None or expected.lstrip(" \t") != f["rline"].lstrip(" \t"):
+        expected = f["rline"]
+    if snippet != expected:
+        return f"snippet {snippet!r} is not the recipe text of line {line} ({expected!r})"
     if snippet.strip() not in file_lines[line - 1].expandtabs(4) and snippet.strip() not in file_lines[line - 1]:
         return f"snippet {snippet!r} is not part of file line {line} ({file_lines[line - 1]!r})"
     if f["kind"] != "eof":
@@ -146,6 +150,8 @@ def make_case(text: str, f: Dict[str, Any], tags: List[str], after: Optional[Lis
         impl(earlier)
     res = impl(text)
     why, pos, fenced, src, o = locate(text, f)
+    sl = src.split("\n")
+    f = dict(f, marko_line=sl[f["j"]] if f["j"] < len(sl) else None)
     violation = oracle(text, f, res)
     if why and not violation:
         violation = "assumption about marko fails: " + why
@@ -244,8 +250,7 @@ def doc_cases(rng: random.Random, n_docs: int, faults_per_doc: int, exhaustive: 
                 b = d.blocks()[bi]
                 blocks = d.blocks()
                 group_first = not any(x.kind == "fenced" and x.lang == "new-recipe" for x in blocks[1: bi + 1])
-                f = dict(d.fault, j=j, file_line=file_line, rline=rline, start_line=b.start_line,
-                         indent_varies=(b.kind == "indented" and "\t" in b.tab_indent))
+                f = dict(d.fault, j=j, file_line=file_line, rline=rline, start_line=b.start_line)
                 nst = len(b.stmts)
                 tags = [f"fault:{kind}", f"container:{b.container}",
                         "block:" + (b.kind if b.kind == "indented" else "fenced" + b.fence[0]),
@@ -275,7 +280,7 @@ def doc_cases(rng: random.Random, n_docs: int, faults_per_doc: int, exhaustive: 
                         text2, _l2 = mddocs.render(d2, eol)
                         _b2, j2, file_line2, rline2 = mddocs.fault_location(d2)
                         f2 = dict(d2.fault, j=j2, file_line=file_line2, rline=rline2,
-                                  start_line=d2.blocks()[bi].start_line, indent_varies=f["indent_varies"])
+                                  start_line=d2.blocks()[bi].start_line)
                         if file_line2 != file_line:
                             cases.append(make_case(text2, f2, tags + ["sibling-rewrapped"], after=[text]))
     return cases
